@@ -76,10 +76,13 @@ pub(crate) fn parse_values(
                     lit: Lit::Int(i), ..
                 }) = num
                 {
-                    if let Ok(mut i) = i.base10_parse::<i64>() {
-                        if negate {
-                            i = -i;
-                        }
+                    let parsed = if negate {
+                        // parse together with the sign, otherwise i64::MIN is not representable
+                        format!("-{}", i.base10_digits()).parse::<i64>()
+                    } else {
+                        i.base10_digits().parse::<i64>()
+                    };
+                    if let Ok(i) = parsed {
                         if sorted.value && !values.is_empty() && i < last {
                             emit_error!(span, Error::FieldsNotValueSorted);
                         }
